@@ -35,6 +35,7 @@ type sid struct {
 var series = []sid{
 	{gostatsd.COUNTER, "c1", "k:v"}, {gostatsd.COUNTER, "c1", "k:w"}, {gostatsd.COUNTER, "c2", "k:v"},
 	{gostatsd.TIMER, "t1", "k:v"}, {gostatsd.TIMER, "t1", "k:w"}, {gostatsd.TIMER, "t2", "k:v"},
+	{gostatsd.TIMER, "t3", "gsd_histogram:2_5"}, // reported as bucket counts instead of summary statistics; expires like any timer
 	{gostatsd.GAUGE, "g1", "k:v"}, {gostatsd.GAUGE, "g1", "k:w"}, {gostatsd.GAUGE, "g2", "k:v"},
 	{gostatsd.SET, "s1", "k:v"}, {gostatsd.SET, "s1", "k:w"}, {gostatsd.SET, "s2", "k:v"},
 }
@@ -155,6 +156,15 @@ func TestExpiryHistories(t *testing.T) {
 					mm.Timers.Each(func(n, tk string, tm gostatsd.Timer) {
 						vs := append([]float64(nil), tm.Values...)
 						sort.Float64s(vs)
+						if tm.Histogram != nil {
+							var bs []string
+							for th, c := range tm.Histogram {
+								bs = append(bs, fmt.Sprintf("%v:%d", float64(th), c))
+							}
+							sort.Strings(bs)
+							note(sid{gostatsd.TIMER, n, tk}, fmt.Sprintf("hist/%v/%v", vs, bs))
+							return
+						}
 						note(sid{gostatsd.TIMER, n, tk}, fmt.Sprintf("%d/%v/%v/p%d", tm.Count, tm.PerSecond, vs, len(tm.Percentiles)))
 					})
 				})
@@ -210,6 +220,20 @@ func TestExpiryHistories(t *testing.T) {
 							np = 5
 						}
 						want = fmt.Sprintf("%d/%v/%v/p%d", len(vs), float64(len(vs))/10, vs, np)
+						if strings.HasPrefix(s.tag, "gsd_histogram:") {
+							le2, le5 := 0, 0
+							for _, v := range vs {
+								if v <= 2 {
+									le2++
+								}
+								if v <= 5 {
+									le5++
+								}
+							}
+							bs := []string{fmt.Sprintf("%v:%d", 2.0, le2), fmt.Sprintf("%v:%d", 5.0, le5), fmt.Sprintf("%v:%d", math.Inf(1), len(vs))}
+							sort.Strings(bs)
+							want = fmt.Sprintf("hist/%v/%v", vs, bs)
+						}
 					}
 					if desc != want {
 						fail("C09:idle-or-data-values", "series %s (%v) reports %s want %s", s, s.typ, desc, want)
